@@ -213,7 +213,7 @@ fn from_hv<'a>(v: hmodel::HV) -> RV<'a> {
         | hmodel::HV::F32(b) => RV::F64(f32::from_bits(b) as f64 as u64),
         | hmodel::HV::Str(s) => RV::Str(Rc::new(s)),
         | hmodel::HV::Char(c) => RV::Char(c),
-        | hmodel::HV::Unit | hmodel::HV::Opaque => RV::Unit,
+        | hmodel::HV::Unit | hmodel::HV::Opaque | hmodel::HV::Bytes(_) => RV::Unit,
     }
 }
 
